@@ -61,7 +61,7 @@ CLAIMED = {
             "Trusted: TLC, Json; tagged sources (batch-composition effects inside the closed-form core functions of real classes are covered by C02/C13 law instances).",
             "DESIGN.md section 5 C06"),
     "C08": ("model_checking",
-            "TLC model of the call life cycle with a failure at every phase (MC_FieldCall) + trace validation of hook-recorded phase traces of real calls through FieldCall!RunF + deep before/after digests",
+            "TLC model of the call life cycle with a failure at every phase (MC_FieldCall) + Apalache inductive invariant for unbounded path lengths (spec/apalache/FieldCallInd.tla) + trace validation of hook-recorded phase traces of real calls through FieldCall!RunF + deep before/after digests",
             "TLC checks NoMutation on the life-cycle model (tile, groups, reduce, rotate, aggregate, un-tile; failure possible at every phase). Every behaviour of the model "
             "(path-length pattern x failing phase) is realised on real objects through public-API faults (missing dimension/excitation, bad pixel_agg/output, incompatible pixel "
             "shapes, CustomSource without or with misbehaving field function) or injected at the guarded hook points; TLC replays each recorded phase trace through the spec and "
